@@ -198,3 +198,44 @@ def _writes_attr(mm, qual, attr, defs, depth=2):
         if isinstance(c.func, ast.Attribute) and isinstance(c.func.value, ast.Name) and c.func.value.id == "self" and nm in defs:
             if any(writes(d) for d in defs[nm]): return True
     return False
+
+def r_C14h(root):
+    """C14.h  postponed initialisation of user objects (_end_model_construction): the instrumented __setattr__ routes a
+       write into the per-object record while that record exists (another load of the same metamodel may keep the class
+       instrumented).  So the record of an object is removed from _tx_obj_attrs *before* its attributes are applied to the
+       object and before its __init__ runs: on no path from the start of the per-object loop does a setattr(obj, ...) or
+       obj.__init__(...) execute while the record is still there."""
+    import ast
+    from sa import sem
+    M = "textx/model.py"; out = []; inst = 0
+    fn = find_i(root, M, "_end_model_construction"); fi = sem.info(fn); cfg = fi.cfg
+    loops = [n for n in own_nodes(fn) if isinstance(n, ast.For) and "_user_class_inst" in ast.unparse(fi.expand(n.iter, at=n.iter))]
+    if not loops: raise AnalysisError("_end_model_construction: loop over the parser's user objects not found")
+    for lp in loops:
+        ov = lp.target.id if isinstance(lp.target, ast.Name) else None
+        if ov is None: raise AnalysisError("_end_model_construction: loop target is not a simple name")
+        def is_removal(n):
+            a = n.ast
+            if a is None: return False
+            for x in ast.walk(a):
+                if isinstance(x, ast.Call) and isinstance(x.func, ast.Attribute) and x.func.attr == "pop" and "_tx_obj_attrs" in ast.unparse(x.func.value) and x.args and "id(%s)" % ov in ast.unparse(x.args[0]).replace(" ", ""): return True
+                if isinstance(x, ast.Delete) and any(isinstance(tg, ast.Subscript) and "_tx_obj_attrs" in ast.unparse(tg.value) and "id(%s)" % ov in ast.unparse(tg.slice).replace(" ", "") for tg in x.targets): return True
+            return False
+        removal = [n for n in cfg.nodes if is_removal(n)]
+        if not removal: raise AnalysisError("_end_model_construction: removal of the per-object record not found")
+        head = fi.node_of(lp)
+        applies = []
+        for c in calls(lp):
+            if callee_name(c) == "setattr" and c.args and ast.unparse(c.args[0]) == ov: applies.append(c)
+            elif isinstance(c.func, ast.Attribute) and c.func.attr == "__init__" and ast.unparse(c.func.value) == ov: applies.append(c)
+        if not applies: raise AnalysisError("_end_model_construction: application of the collected attributes not found")
+        for c in applies:
+            inst += 1
+            n = fi.node_of(c)
+            p = cfg.paths_avoiding(head, n, lambda m: m in removal) if n is not None and head is not None else None
+            ok = not p
+            for pr in ("C14", "C05"): ob(pr, "C14.h", M, "_end_model_construction", "record removed before %s" % " ".join(ast.unparse(c).split())[:60], ok)
+            if not ok:
+                for pr in ("C14", "C05"):
+                    out.append(Finding(pr, "C14.h", M, "_end_model_construction", " ".join(ast.unparse(c).split())[:80], "attributes are applied to the user object while its record is still in _tx_obj_attrs: if the class is still instrumented (a nested / second load of the same metamodel is in progress) the write lands in the record, which is discarded afterwards — the object loses parent and every attribute its __init__ does not store itself", witness="user class whose __init__ ignores parent; main model that imports another model of the same metamodel"))
+    return inst, out
